@@ -101,8 +101,23 @@ def r2_synthesised_names_bound(ctx):
     # names handed to the rewriter
     ctor = [c for c in ast.walk(rc.node) if isinstance(c, ast.Call) and call_name(c) == rw.name]
     ctx.require(len(ctor) == 1, f"{rc.key}: expected one construction of the rewriter")
-    handed = {k.arg: dotted(k.value) for k in ctor[0].keywords if k.arg and k.arg.endswith("_mangled")}
-    ctx.require(len(handed) >= 3, f"{rc.key}: the mangled names are no longer passed by keyword")
+    init = rw.methods.get("__init__")
+    ctx.require(init is not None, f"{rw.key} has no __init__")
+    ia = init.node.args
+    iparams = [x.arg for x in ia.posonlyargs + ia.args][1:]
+    handed = {}
+    for i, a_ in enumerate(ctor[0].args):
+        if i < len(iparams) and isinstance(a_, ast.Name):
+            handed[iparams[i]] = a_.id
+    for k in ctor[0].keywords:
+        if k.arg and isinstance(k.value, ast.Name):
+            handed[k.arg] = k.value.id
+    # keep the ones that are emitted names: variables defined in the re-compiler as name templates
+    name_vars = {s.targets[0].id for s in all_stmts(rc.node) if isinstance(s, ast.Assign) and isinstance(s.targets[0], ast.Name) and isinstance(s.value, ast.JoinedStr)}
+    handed = {k: v for k, v in handed.items() if v in name_vars}
+    ctx.require(len(handed) >= 3, f"{rc.key}: expected the three generated global names to be handed to the rewriter")
+    roles = A.rewriter_roles(repo)
+    role_of = {v[1]: r for r, v in roles.items()}
     stores = {}
     for st in all_stmts(rc.node):
         if isinstance(st, ast.Assign) and isinstance(st.targets[0], ast.Subscript) and isinstance(st.targets[0].value, ast.Attribute) and st.targets[0].value.attr == "__globals__":
@@ -111,7 +126,8 @@ def r2_synthesised_names_bound(ctx):
         if isinstance(st, ast.Expr) and isinstance(st.value, ast.Call) and isinstance(st.value.func, ast.Attribute) and st.value.func.attr == "setdefault" and isinstance(st.value.func.value, ast.Attribute) and st.value.func.value.attr == "__globals__":
             k = st.value.args[0]
             stores[dotted(k) if not isinstance(k, ast.Constant) else repr(k.value)] = st
-    want_val = {"ovld_mangled": (f"{ownerp}.dispatch", ownerp), "map_mangled": (f"{ownerp}.map",), "code_mangled": None}
+    want_by_role = {"ovld": (f"{ownerp}.dispatch", ownerp), "map": (f"{ownerp}.map",), "code": None}
+    want_val = {kw: want_by_role.get(role_of.get(kw)) for kw in handed}
     for kw, var in handed.items():
         st = stores.get(var)
         ok = st is not None
@@ -142,7 +158,7 @@ def r2_synthesised_names_bound(ctx):
         st = stores.get(repr(lit))
         ctx.ob(f"{rc.key}:binds:{lit}", rc.loc(st) if st is not None else rc.loc(), f"the helper name {lit} emitted by the rewriter is bound in the method's globals", st is not None, f"the rewriter emits {lit} but nothing binds it")
     # the names embed the function's unique id
-    for kw in ("ovld_mangled", "map_mangled"):
+    for kw in [k for k in handed if role_of.get(k) in ("ovld", "map")]:
         var = handed.get(kw)
         defs = [s for s in all_stmts(rc.node) if isinstance(s, ast.Assign) and any(dotted(t) == var for t in s.targets)]
         ok = len(defs) == 1 and f"§{ownerp}.id§" in (str_value(defs[0].value) or "")
